@@ -1,40 +1,40 @@
 (* C12 - property theorems only.  Concrete (M) and abstract (A) steps: C12_Model.v. *)
-From HV Require Import Prelude GenoTable C13_Model C13_Check C12_Model C12_Proofs C12_Check C12_Sound.
+From HV Require Import Prelude GenoTable C13_Model C13_Check C12_Model C12_Proofs C12_Proofs2 C12_Check C12_Sound.
 
 (* ---- generic: any object with two ID indexes whose mutators declare their effect on
         the caches truthfully ---- *)
 
 Theorem C12_cache_valid_step :
-  forall (tab : Type) (ids1 ids2 : tab -> list Z) (sub1 sub2 : list Z -> list Z -> tab -> res tab),
+  forall (tab V : Type) (ids1 ids2 : tab -> list Z) (sub1 sub2 : list Z -> list Z -> tab -> res tab),
   (forall s r t t', sub1 s r t = Ok t' -> ids2 t' = ids2 t) ->
   (forall s r t t', sub2 s r t = Ok t' -> ids1 t' = ids1 t) ->
   forall o p o' out,
-  cache_valid tab ids1 ids2 o -> op_ok tab ids1 ids2 (o_tab o) p ->
-  m_step tab ids1 ids2 sub1 sub2 o p = Ok (o', out) -> cache_valid tab ids1 ids2 o'.
+  cache_valid tab ids1 ids2 o -> op_ok tab V ids1 ids2 (o_tab o) p ->
+  m_step tab V ids1 ids2 sub1 sub2 o p = Ok (o', out) -> cache_valid tab ids1 ids2 o'.
 Proof. exact cache_valid_step. Qed.
 Print Assumptions C12_cache_valid_step.
 
 Theorem C12_step_refines :
-  forall (tab : Type) (ids1 ids2 : tab -> list Z) (sub1 sub2 : list Z -> list Z -> tab -> res tab),
+  forall (tab V : Type) (ids1 ids2 : tab -> list Z) (sub1 sub2 : list Z -> list Z -> tab -> res tab),
   (forall s r t t', sub1 s r t = Ok t' -> ids2 t' = ids2 t) ->
   (forall s r t t', sub2 s r t = Ok t' -> ids1 t' = ids1 t) ->
   forall o p,
-  cache_valid tab ids1 ids2 o -> op_ok tab ids1 ids2 (o_tab o) p ->
-  match m_step tab ids1 ids2 sub1 sub2 o p with
-  | Ok (o', out) => a_step tab ids1 ids2 sub1 sub2 (o_tab o) p = Ok (o_tab o', out)
+  cache_valid tab ids1 ids2 o -> op_ok tab V ids1 ids2 (o_tab o) p ->
+  match m_step tab V ids1 ids2 sub1 sub2 o p with
+  | Ok (o', out) => a_step tab V ids1 ids2 sub1 sub2 (o_tab o) p = Ok (o_tab o', out)
                     /\ cache_valid tab ids1 ids2 o'
-  | Err k => a_step tab ids1 ids2 sub1 sub2 (o_tab o) p = Err k
+  | Err k => a_step tab V ids1 ids2 sub1 sub2 (o_tab o) p = Err k
   end.
 Proof. exact step_refines. Qed.
 Print Assumptions C12_step_refines.
 
 Theorem C12_run_refines :
-  forall (tab : Type) (ids1 ids2 : tab -> list Z) (sub1 sub2 : list Z -> list Z -> tab -> res tab),
+  forall (tab V : Type) (ids1 ids2 : tab -> list Z) (sub1 sub2 : list Z -> list Z -> tab -> res tab),
   (forall s r t t', sub1 s r t = Ok t' -> ids2 t' = ids2 t) ->
   (forall s r t t', sub2 s r t = Ok t' -> ids1 t' = ids1 t) ->
   forall ops o,
-  cache_valid tab ids1 ids2 o -> ops_ok tab ids1 ids2 sub1 sub2 (o_tab o) ops ->
-  m_run tab ids1 ids2 sub1 sub2 o ops = a_run tab ids1 ids2 sub1 sub2 (o_tab o) ops.
+  cache_valid tab ids1 ids2 o -> ops_ok tab V ids1 ids2 sub1 sub2 (o_tab o) ops ->
+  m_run tab V ids1 ids2 sub1 sub2 o ops = a_run tab V ids1 ids2 sub1 sub2 (o_tab o) ops.
 Proof. exact run_refines. Qed.
 Print Assumptions C12_run_refines.
 
@@ -51,7 +51,7 @@ Print Assumptions C12_refines_geno.
 Theorem C12_geno_cache_valid :
   forall (T : Type) (rare : T -> Z -> Z -> bool) (file : gtab) (anc : bool) o p o' out,
   cache_valid gtab g_ids1 g_ids2 o ->
-  m_step gtab g_ids1 g_ids2 g_sub1 g_sub2 o (g_interp T rare file anc false p) = Ok (o', out) ->
+  m_step gtab gview g_ids1 g_ids2 g_sub1 g_sub2 o (g_interp T rare file anc false p) = Ok (o', out) ->
   cache_valid gtab g_ids1 g_ids2 o'.
 Proof. exact geno_cache_valid_step. Qed.
 Print Assumptions C12_geno_cache_valid.
@@ -60,13 +60,13 @@ Print Assumptions C12_geno_cache_valid.
 
 Theorem C12_refines_pheno :
   forall (file : ptab) (ops : list pop),
-  fresh_appends file p_empty ops -> pm_run file false ops = pa_run file false ops.
+  fresh_appends file p_empty ops -> pm_run file false false ops = pa_run file false false ops.
 Proof. exact refines_pheno. Qed.
 Print Assumptions C12_refines_pheno.
 
 Theorem C12_refines_pheno_no_append :
   forall (file : ptab) (ops : list pop),
-  Forall no_append ops -> pm_run file false ops = pa_run file false ops.
+  Forall no_append ops -> pm_run file false false ops = pa_run file false false ops.
 Proof. exact refines_pheno_no_append. Qed.
 Print Assumptions C12_refines_pheno_no_append.
 
@@ -103,9 +103,9 @@ Proof. exact legacy_stale_refuted. Qed.
 Print Assumptions C12_legacy_stale_refuted.
 
 Theorem C12_legacy_pheno_stale_refuted :
-  pm_run pf3 true [PRead None; PSubset (Some [1]) None false; PRead (Some [1; 2]); PSubset (Some [1]) None false]
-  <> pa_run pf3 true [PRead None; PSubset (Some [1]) None false; PRead (Some [1; 2]); PSubset (Some [1]) None false]
-  /\ last (pm_run pf3 true [PRead None; PIndex true false; PRead (Some [2]); PSubset (Some [2]) None false]) (Err 0)
+  pm_run pf3 true false [PRead None; PSubset (Some [1]) None false; PRead (Some [1; 2]); PSubset (Some [1]) None false]
+  <> pa_run pf3 true false [PRead None; PSubset (Some [1]) None false; PRead (Some [1; 2]); PSubset (Some [1]) None false]
+  /\ last (pm_run pf3 true false [PRead None; PIndex true false; PRead (Some [2]); PSubset (Some [2]) None false]) (Err 0)
      = Err E_Index.
 Proof. exact legacy_pheno_stale_refuted. Qed.
 Print Assumptions C12_legacy_pheno_stale_refuted.
@@ -144,29 +144,29 @@ Print Assumptions C12_hobs_eqb_sound.
 (* ---- an object AND the copies its subsets return: histories that go on with any of them ---- *)
 
 Theorem C12_pool_run_refines :
-  forall (tab : Type) (ids1 ids2 : tab -> list Z) (sub1 sub2 : list Z -> list Z -> tab -> res tab),
+  forall (tab V : Type) (ids1 ids2 : tab -> list Z) (sub1 sub2 : list Z -> list Z -> tab -> res tab),
   (forall s r t t', sub1 s r t = Ok t' -> ids2 t' = ids2 t) ->
   (forall s r t t', sub2 s r t = Ok t' -> ids1 t' = ids1 t) ->
-  forall ops objs f,
+  forall (merge : list tab -> res tab) ops objs f,
   Forall (cache_valid tab ids1 ids2) objs ->
-  pool_ops_ok tab ids1 ids2 sub1 sub2 (map (@o_tab tab) objs) f ops ->
-  pool_m_run tab ids1 ids2 sub1 sub2 objs f ops
-  = pool_a_run tab ids1 ids2 sub1 sub2 (map (@o_tab tab) objs) f ops.
-Proof. exact pool_run_refines. Qed.
+  pool_ops_ok tab V ids1 ids2 sub1 sub2 merge (map (@o_tab tab) objs) f ops ->
+  pool_m_run tab V ids1 ids2 sub1 sub2 merge objs f ops
+  = pool_a_run tab V ids1 ids2 sub1 sub2 merge (map (@o_tab tab) objs) f ops.
+Proof. intros tab V ids1 ids2 sub1 sub2 H1 H2 merge. exact (pool_run_refines tab V ids1 ids2 sub1 sub2 merge H1 H2). Qed.
 Print Assumptions C12_pool_run_refines.
 
 (* non-interference: an operation on one object changes no other object (contents or caches),
    and a returned copy starts without caches *)
 Theorem C12_pool_step_frame :
-  forall (tab : Type) (ids1 ids2 : tab -> list Z) (sub1 sub2 : list Z -> list Z -> tab -> res tab)
-         objs f p objs' f' out,
-  pool_m_step tab ids1 ids2 sub1 sub2 objs f (XOn p) = Ok (objs', f', out) ->
+  forall (tab V : Type) (ids1 ids2 : tab -> list Z) (sub1 sub2 : list Z -> list Z -> tab -> res tab)
+         (merge : list tab -> res tab) objs f p objs' f' out,
+  pool_m_step tab V ids1 ids2 sub1 sub2 merge objs f (XOn p) = Ok (objs', f', out) ->
   f' = f
   /\ (forall j, j <> f -> (j < length objs)%nat -> nth_error objs' j = nth_error objs j)
   /\ match out with
-     | Some t => nth_error objs' (length objs) = Some (mko t None None)
-                 /\ length objs' = S (length objs)
-     | None => length objs' = length objs
+     | OCopy t => nth_error objs' (length objs) = Some (mko t None None)
+                  /\ length objs' = S (length objs)
+     | _ => length objs' = length objs
      end.
 Proof. exact pool_step_frame. Qed.
 Print Assumptions C12_pool_step_frame.
@@ -179,15 +179,242 @@ Print Assumptions C12_refines_geno_pool.
 
 Theorem C12_refines_pheno_pool :
   forall (file : ptab) (ops : list (xop pop)),
-  fresh_appends_pool file [p_empty] 0 ops -> pm_prun file false ops = pa_prun file false ops.
+  fresh_appends_pool file [p_empty] 0 ops -> pm_prun file false false ops = pa_prun file false false ops.
 Proof. exact refines_pheno_pool. Qed.
 Print Assumptions C12_refines_pheno_pool.
 
 Theorem C12_copies_do_not_share :
-  map (fun x => match x with Ok (_, Some r) => p_names r | _ => [] end)
-      (pm_prun pf3 false [XOn (PRead None); XOn (PIndex true true); XOn (PSubset (Some [0; 2]) None false);
+  map (fun x => match x with Ok (_, OCopy r) => p_names r | _ => [] end)
+      (pm_prun pf3 false false [XOn (PRead None); XOn (PIndex true true); XOn (PSubset (Some [0; 2]) None false);
                           XSwitch 1; XOn (PAppend 5 [4; 4]); XOn (PSubset None (Some [5; 1]) false);
                           XSwitch 0; XOn (PSubset None (Some [5; 1]) false)])
   = [[]; []; [0; 1]; []; []; [5; 1]; []; [1]].
 Proof. exact copies_do_not_share. Qed.
 Print Assumptions C12_copies_do_not_share.
+
+(* ======================================================================== *)
+(* added: the specification of a by-ID subset, read-only queries, merges, histories that go on
+   after a caught exception, haplotypes copies and merges                                    *)
+
+(* ---- what sub (current IDs) req returns: exactly the rows / columns held under the requested
+        IDs, in request order, absent IDs left out; never an exception on a well-shaped table ---- *)
+
+Theorem C12_requested_ids_acted_on :
+  forall ids req x, In x (known ids req) <-> In x req /\ In x ids.
+Proof. exact known_spec. Qed.
+Print Assumptions C12_requested_ids_acted_on.
+
+Theorem C12_request_order_kept :
+  forall ids req, known ids req = filter (fun x => memZ x ids) req.
+Proof. exact known_is_filter. Qed.
+Print Assumptions C12_request_order_kept.
+
+Theorem C12_select_current :
+  forall (A : Type) ids req (l : list A), length l = length ids ->
+  exists out, select (where_ ids (known ids req)) l = Ok out
+              /\ Forall2 (held_under ids l) (known ids req) out.
+Proof. exact @select_known. Qed.
+Print Assumptions C12_select_current.
+
+Theorem C12_one_row_per_id :
+  forall (A : Type) ids (l : list A) x y y',
+  NoDup ids -> held_under ids l x y -> held_under ids l x y' -> y = y'.
+Proof. exact @held_under_unique. Qed.
+Print Assumptions C12_one_row_per_id.
+
+Theorem C12_pheno_subset_samples_spec :
+  forall req t, p_shaped t ->
+  exists rows, p_sub1 (p_samples t) req t = Ok (mkp (known (p_samples t) req) (p_names t) rows)
+               /\ Forall2 (held_under (p_samples t) (p_rows t)) (known (p_samples t) req) rows.
+Proof. exact p_sub1_current. Qed.
+Print Assumptions C12_pheno_subset_samples_spec.
+
+Theorem C12_pheno_subset_names_spec :
+  forall req t, p_shaped t ->
+  exists rows, p_sub2 (p_names t) req t = Ok (mkp (p_samples t) (known (p_names t) req) rows)
+               /\ Forall2 (fun r r' => Forall2 (held_under (p_names t) r) (known (p_names t) req) r') (p_rows t) rows.
+Proof. exact p_sub2_current. Qed.
+Print Assumptions C12_pheno_subset_names_spec.
+
+Theorem C12_geno_subset_samples_spec :
+  forall req t, g_shaped t ->
+  exists rows anc,
+    g_sub1 (g_ids1 t) req t = Ok (mkg (known (g_ids1 t) req) (g_variants t) rows (g_planes t) anc)
+    /\ Forall2 (held_under (g_ids1 t) (g_rows t)) (known (g_ids1 t) req) rows
+    /\ match g_anc t, anc with
+       | Some a, Some a' => Forall2 (held_under (g_ids1 t) a) (known (g_ids1 t) req) a'
+       | None, None => True
+       | _, _ => False
+       end.
+Proof. exact g_sub1_current. Qed.
+Print Assumptions C12_geno_subset_samples_spec.
+
+Theorem C12_geno_subset_variants_spec :
+  forall req t, g_shaped t ->
+  exists vs rows anc,
+    g_sub2 (g_ids2 t) req t = Ok (mkg (g_samples t) vs rows (g_planes t) anc)
+    /\ map vid vs = known (g_ids2 t) req
+    /\ Forall2 (held_under (g_ids2 t) (g_variants t)) (known (g_ids2 t) req) vs
+    /\ Forall2 (fun r r' => Forall2 (held_under (g_ids2 t) r) (known (g_ids2 t) req) r') (g_rows t) rows
+    /\ match g_anc t, anc with
+       | Some a, Some a' =>
+           Forall2 (fun r r' => Forall2 (held_under (g_ids2 t) r) (known (g_ids2 t) req) r') a a'
+       | None, None => True
+       | _, _ => False
+       end.
+Proof. exact g_sub2_current. Qed.
+Print Assumptions C12_geno_subset_variants_spec.
+
+Theorem C12_shaped_satisfiable : g_shaped f3 /\ p_shaped pf3 /\ NoDup (g_ids2 f3) /\ NoDup (p_samples pf3).
+Proof. exact shaped_examples. Qed.
+Print Assumptions C12_shaped_satisfiable.
+
+(* ---- histories that go on after a caught ValueError (index() discarding the dictionary in which
+        it found duplicates): generic step and run, pools with merges, genotypes, phenotypes ---- *)
+
+Theorem C12_stepx_refines :
+  forall (tab V : Type) (ids1 ids2 : tab -> list Z) (sub1 sub2 : list Z -> list Z -> tab -> res tab),
+  (forall s r t t', sub1 s r t = Ok t' -> ids2 t' = ids2 t) ->
+  (forall s r t t', sub2 s r t = Ok t' -> ids1 t' = ids1 t) ->
+  forall o p,
+  cache_valid tab ids1 ids2 o -> op_ok tab V ids1 ids2 (o_tab o) p ->
+  a_stepx tab V ids1 ids2 sub1 sub2 (o_tab o) p
+  = (o_tab (fst (m_stepx tab V ids1 ids2 sub1 sub2 true o p)), snd (m_stepx tab V ids1 ids2 sub1 sub2 true o p))
+  /\ cache_valid tab ids1 ids2 (fst (m_stepx tab V ids1 ids2 sub1 sub2 true o p)).
+Proof. exact stepx_refines. Qed.
+Print Assumptions C12_stepx_refines.
+
+Theorem C12_runx_refines :
+  forall (tab V : Type) (ids1 ids2 : tab -> list Z) (sub1 sub2 : list Z -> list Z -> tab -> res tab),
+  (forall s r t t', sub1 s r t = Ok t' -> ids2 t' = ids2 t) ->
+  (forall s r t t', sub2 s r t = Ok t' -> ids1 t' = ids1 t) ->
+  forall ops o,
+  cache_valid tab ids1 ids2 o -> ops_okx tab V ids1 ids2 sub1 sub2 (o_tab o) ops ->
+  m_runx tab V ids1 ids2 sub1 sub2 true o ops = a_runx tab V ids1 ids2 sub1 sub2 (o_tab o) ops.
+Proof. exact runx_refines. Qed.
+Print Assumptions C12_runx_refines.
+
+Theorem C12_pool_runx_refines :
+  forall (tab V : Type) (ids1 ids2 : tab -> list Z) (sub1 sub2 : list Z -> list Z -> tab -> res tab)
+         (merge : list tab -> res tab),
+  (forall s r t t', sub1 s r t = Ok t' -> ids2 t' = ids2 t) ->
+  (forall s r t t', sub2 s r t = Ok t' -> ids1 t' = ids1 t) ->
+  forall ops objs f,
+  Forall (cache_valid tab ids1 ids2) objs ->
+  pool_ops_okx tab V ids1 ids2 sub1 sub2 merge (map (@o_tab tab) objs) f ops ->
+  pool_m_runx tab V ids1 ids2 sub1 sub2 merge true objs f ops
+  = pool_a_runx tab V ids1 ids2 sub1 sub2 merge (map (@o_tab tab) objs) f ops.
+Proof. exact pool_runx_refines. Qed.
+Print Assumptions C12_pool_runx_refines.
+
+(* the history that stops at the first exception is the beginning of the one that goes on *)
+Theorem C12_pool_run_is_cut :
+  forall (tab V : Type) (ids1 ids2 : tab -> list Z) (sub1 sub2 : list Z -> list Z -> tab -> res tab)
+         (merge : list tab -> res tab) heal ops objs f,
+  pool_m_run tab V ids1 ids2 sub1 sub2 merge objs f ops
+  = cut (pool_m_runx tab V ids1 ids2 sub1 sub2 merge heal objs f ops).
+Proof. exact pool_run_cut_runx. Qed.
+Print Assumptions C12_pool_run_is_cut.
+
+(* a merge and a failed operation change no other object; a merged object starts without caches *)
+Theorem C12_pool_merge_frame :
+  forall (tab V : Type) (ids1 ids2 : tab -> list Z) (sub1 sub2 : list Z -> list Z -> tab -> res tab)
+         (merge : list tab -> res tab) objs f ks objs' f' out,
+  pool_m_step tab V ids1 ids2 sub1 sub2 merge objs f (XMerge ks) = Ok (objs', f', out) ->
+  f' = f /\ exists t, out = OCopy t /\ objs' = objs ++ [mko t None None].
+Proof. exact pool_merge_frame. Qed.
+Print Assumptions C12_pool_merge_frame.
+
+Theorem C12_pool_fail_frame :
+  forall (tab V : Type) (ids1 ids2 : tab -> list Z) heal objs f (x : xop (op tab V)) j,
+  j <> f -> nth_error (pool_fail tab V ids1 ids2 heal objs f x) j = nth_error objs j.
+Proof. exact pool_fail_frame. Qed.
+Print Assumptions C12_pool_fail_frame.
+
+(* genotypes: read, subset, index, the three checks with and without discard, check_sorted,
+   PhenoSimulator.run, Haplotypes.transform, merge_variants, on the object, its copies and the
+   merged objects, going on after every ValueError; no precondition *)
+Theorem C12_refines_geno_poolx :
+  forall (T : Type) (rare : T -> Z -> Z -> bool) (file : gtab) (anc : bool) (ops : list (xop (gop T))),
+  gm_prunx T rare file anc false true ops = ga_prunx T rare file anc false ops.
+Proof. exact refines_geno_poolx. Qed.
+Print Assumptions C12_refines_geno_poolx.
+
+Theorem C12_geno_prun_is_cut :
+  forall (T : Type) (rare : T -> Z -> Z -> bool) (file : gtab) (anc legacy heal : bool) (ops : list (xop (gop T))),
+  gm_prun T rare file anc legacy ops = cut (gm_prunx T rare file anc legacy heal ops).
+Proof. exact geno_prun_cut. Qed.
+Print Assumptions C12_geno_prun_is_cut.
+
+(* index() as it is in the tree: after the ValueError the same look-up answers (with the last of
+   the two columns bearing the ID) where a fresh object raises again *)
+Theorem C12_index_failure_poisons_refuted :
+  map shown (gm_prunx unit norare fdup false false false dup_history) = [Ok []; Err E_Value; Ok [14]]
+  /\ map shown (gm_prunx unit norare fdup false false true dup_history) = [Ok []; Err E_Value; Err E_Value]
+  /\ map shown (ga_prunx unit norare fdup false false dup_history) = [Ok []; Err E_Value; Err E_Value].
+Proof. exact index_failure_poisons_refuted. Qed.
+Print Assumptions C12_index_failure_poisons_refuted.
+
+(* phenotypes with the repaired append: no precondition on the appended names *)
+Theorem C12_refines_pheno_fixed :
+  forall (file : ptab) (ops : list pop), pm_run file false true ops = pa_run file false true ops.
+Proof. exact refines_pheno_fixed. Qed.
+Print Assumptions C12_refines_pheno_fixed.
+
+Theorem C12_refines_pheno_pool_fixed :
+  forall (file : ptab) (ops : list (xop pop)), pm_prun file false true ops = pa_prun file false true ops.
+Proof. exact refines_pheno_pool_fixed. Qed.
+Print Assumptions C12_refines_pheno_pool_fixed.
+
+Theorem C12_refines_pheno_poolx_fixed :
+  forall (file : ptab) (ops : list (xop pop)), pm_prunx file false true true ops = pa_prunx file false true ops.
+Proof. exact refines_pheno_poolx_fixed. Qed.
+Print Assumptions C12_refines_pheno_poolx_fixed.
+
+Theorem C12_pheno_prun_is_cut :
+  forall (file : ptab) legacy fixapp heal (ops : list (xop pop)),
+  pm_prun file legacy fixapp ops = cut (pm_prunx file legacy fixapp heal ops).
+Proof. exact pheno_prun_cut. Qed.
+Print Assumptions C12_pheno_prun_is_cut.
+
+(* append() as it is in the tree, given a name the object already holds *)
+Theorem C12_append_present_refuted :
+  map pshown (pm_run pf3 false false (app_history true)) = [Ok []; Ok []; Ok []; Ok [[4]; [6]; [8]]]
+  /\ map pshown (pm_run pf3 false false (app_history false)) = [Ok []; Ok []; Ok []; Err E_Value]
+  /\ map pshown (pa_run pf3 false false (app_history true)) = [Ok []; Ok []; Ok []; Err E_Value]
+  /\ map pshown (pm_run pf3 false true (app_history true)) = [Ok []; Ok []; Ok []; Err E_Value].
+Proof. exact append_present_refuted. Qed.
+Print Assumptions C12_append_present_refuted.
+
+(* ---- haplotypes: the object, the copies its subsets return and the objects merge builds ---- *)
+
+Theorem C12_refines_haps_pool :
+  forall (file : list hrec) (ops : list hxop) (objs : list hobj) (f : nat),
+  Forall hvalid objs -> hp_m_run file false objs f ops = hp_a_run file (map ho_data objs) f ops.
+Proof. exact refines_haps_pool. Qed.
+Print Assumptions C12_refines_haps_pool.
+
+Theorem C12_refines_haps_pool_init :
+  forall (file : list hrec) (ops : list hxop),
+  hp_m_run file false [h_init] 0 ops = hp_a_run file [[]] 0 ops.
+Proof. exact refines_haps_pool_init. Qed.
+Print Assumptions C12_refines_haps_pool_init.
+
+Theorem C12_haps_pool_errors :
+  forall (file : list hrec) (ops : list hxop) ds f k,
+  In (Err k) (hp_a_run file ds f ops) -> k = E_Value \/ k = E_Index.
+Proof. exact haps_pool_errors. Qed.
+Print Assumptions C12_haps_pool_errors.
+
+Theorem C12_haps_pool_example :
+  map (fun x => match x with Ok (_, HHaps l) => Ok l | Ok _ => Ok [] | Err k => Err k end)
+      (hp_m_run hf3 false [h_init] 0
+         [HXOn (HRead None); HXOn (HSubset [2] false); HXOn (HSubset [1; 11] true); HXOn HTransform;
+          HXSwitch 1; HXOn HTransform; HXMerge [0%nat; 1%nat]; HXMerge [0%nat; 0%nat]; HXSwitch 2; HXOn HTransform])
+  = [Ok []; Ok []; Ok []; Ok [1]; Ok []; Ok [2]; Ok []; Err E_Value; Ok []; Ok [1; 2]].
+Proof. exact haps_pool_example. Qed.
+Print Assumptions C12_haps_pool_example.
+
+Theorem C12_gview_eqb_sound : forall a b, gview_eqb a b = true -> a = b.
+Proof. exact gview_eqb_true. Qed.
+Print Assumptions C12_gview_eqb_sound.
